@@ -22,6 +22,7 @@ def family():
     from mc.flo import families as F
     yield from F.fam_clones()
     yield from F.fam_clone_markers()
+    yield from F.fam_clones_static_and_reared()
 
 
 def rel_paths(prog):
